@@ -189,7 +189,7 @@ fn neighbour_stage(ctx: &mut Ctx, s: u64, r: &mut Rng) {
         let from_client = r.chance(2, 3);
         // (the many-segments form costs ~9 s per run -- the analyzer re-reads the whole buffered
         // direction on every segment until it gives up -- so it is the rarer one)
-        let (nseg, seglen) = if !r.chance(1, if ctx.quick() { 100 } else { 25 }) { (5 + r.usize(3), 60_000usize) } else { (2060 + r.usize(100), 40 + r.usize(20)) };
+        let (nseg, seglen) = if !r.chance(1, if ctx.quick() { 100 } else { 400 }) { (5 + r.usize(3), 60_000usize) } else { (2060 + r.usize(100), 40 + r.usize(20)) };
         for i in 0..nseg {
             let mut b = r.bytes(seglen);
             if i == 0 {
@@ -433,7 +433,7 @@ pub fn run(ctx: &mut Ctx) {
         if s % 2 == 0 || !ctx.quick() {
             reuse_stage(ctx, s, &mut r);
         }
-        if !ctx.miri() && (s / 16) % (if ctx.quick() { 16 } else { 8 }) == 5 {
+        if !ctx.miri() && (s / 16) % 16 == 5 {
             neighbour_stage(ctx, s, &mut r);
         }
         // worker pools: a quarter of the scenarios (quick) / half of them (thorough), spread evenly over the shards;
@@ -460,7 +460,7 @@ pub fn spec() -> PropSpec {
         shards: super::shards_16,
         rule: "seeded scenarios of 2..8 scripted connections (TCP handshakes with timestamps, multi-segment TLS ClientHellos, HTTP/1.x and HTTP/2 exchanges incl. hostile HPACK blocks with dynamic-table inserts/references/size updates, garbage and truncated connections), each analysed alone and in 3..5 order-preserving interleavings (sequential, round-robin, riffle, hostile-first, bursts) on the TCP, HTTP, TLS and unified analyzers with the virtual clock giving every frame the same arrival time in both runs; per-frame canonical results of each connection are compared; a bucket is a distinct (analyzer, interleaving, connection kind, reports/silent) or (analyzer, kind, set of neighbouring kinds)",
         assumptions: &[
-            "neighbour stage (one scenario block in 16, quick; in 8, thorough): a bulk connection beyond the give-up limits followed by another client's exchange with the same server socket (HTTP, unified); two timestamped connections on one socket, one closed by FIN/RST between two segments of the other (TCP, unified)",
+            "neighbour stage (one scenario block in 16): a bulk connection beyond the give-up limits followed by another client's exchange with the same server socket (HTTP, unified); two timestamped connections on one socket, one closed by FIN/RST between two segments of the other (TCP, unified)",
             "connection capacity is 64, or (half of the scenarios) exactly the number of connections of the scenario; the caller-supplied uptime tracker of the TCP analyzer's per-packet entry always holds 64 entries; scenarios are far shorter than the 20/30/60 s TTLs, slower ones are discarded as inconclusive",
             "parsing_time_ns and HashMap iteration order are excluded from the canonical form",
             "connections of one scenario have pairwise distinct 4-tuples",
